@@ -75,6 +75,7 @@ class ShareMonitor:
                   rtmod.Runtime._randoms, rtmod.Runtime._np_randoms, thresha.PRF.__init__, rtmod.Runtime.output)
         o_task, o_rec, o_wrap, o_split, o_randoms, o_nprandoms, o_prf, o_output = self.o
         o_zero, o_npzero = self.o2 = (thresha.pseudorandom_share_zero, thresha.np_pseudorandom_share_0)
+        o_npsplit = self.o3 = thresha.np_random_split
 
         class Wrapper(o_wrap):
             __slots__ = ()
@@ -122,6 +123,23 @@ class ShareMonitor:
                                   'draws': [(e[1], e[2], e[3]) for e in draws], 'secrets': secrets_,
                                   'shares': [[(a.value if hasattr(a, 'value') else a) for a in row] for row in res],
                                   'modulus': field.modulus if isinstance(field.modulus, int) else None})
+            return res
+
+        def np_random_split(field, s_, t, m):
+            p = CUR.get()
+            n0 = len(SECRETS.log) if SECRETS.log is not None else 0
+            res = o_npsplit(field, s_, t, m)
+            try:
+                draws = [e for e in SECRETS.log[n0:] if e[0] == p] if SECRETS.log is not None else []
+                sv = getattr(s_, 'value', s_)
+                secrets_ = [int(a) if isinstance(a, int) else None for a in list(sv.reshape(-1))]
+                shares = [[int(a) if isinstance(a, int) else None for a in list(row)] for row in res]
+                mon.splits[p].append({'t': t, 'm': m, 'n': len(secrets_), 'order': field.order, 'np': True,
+                                      'origin': sys._getframe(1).f_code.co_name, 'label': mon.net.rts[p]._program_counter[0],
+                                      'byte_length': None, 'draws': [(e[1], e[2], e[3]) for e in draws], 'secrets': secrets_,
+                                      'shares': shares, 'modulus': field.modulus if isinstance(field.modulus, int) else None})
+            except Exception as exc:  # noqa: BLE001  the monitor must never break the run
+                mon.splits[p].append({'np': True, 'monitor_error': repr(exc)[:200]})
             return res
 
         def _ints(xs):
@@ -206,6 +224,7 @@ class ShareMonitor:
             mon.events[i].append(['zero', fr.f_code.co_name, n, id(fr)])
             return o_npzero(field, m, i, prfs, uci, n)
 
+        thresha.np_random_split = np_random_split
         thresha.pseudorandom_share_zero = share_zero
         thresha.np_pseudorandom_share_0 = np_share_zero
         rtmod.Runtime.output = output
@@ -225,6 +244,7 @@ class ShareMonitor:
         (asyncoro.Task, asyncoro._reconcile, asyncoro._ProgramCounterWrapper, thresha.random_split,
          rtmod.Runtime._randoms, rtmod.Runtime._np_randoms, thresha.PRF.__init__, rtmod.Runtime.output) = self.o
         thresha.pseudorandom_share_zero, thresha.np_pseudorandom_share_0 = self.o2
+        thresha.np_random_split = self.o3
         SECRETS.log = self._log_was
         return False
 
